@@ -1,4 +1,5 @@
 import MosnVerif.Lemmas.TlsSelect
+import MosnVerif.Lemmas.TlsMatch
 import MosnVerif.Lemmas.TlsUpdate
 import MosnVerif.Model.TlsTrust
 import MosnVerif.Model.TlsConnect
@@ -9,10 +10,53 @@ import MosnVerif.Lemmas.TlsAccept
 
 The objects are the model of pkg/mtls in `Model/TlsSelect.lean`; `walkStep/walkFinish` (GetConfigForClient),
 `getClientAuth`, `clientVerify`, `connDecision`, `requiresClientCert`, `alpnSupported` and the ClientAuthType constants
-are regenerated from the Go source on every check (`Gen/TlsPolicy.lean`).
+are regenerated from the Go source on every check (`Gen/TlsPolicy.lean`).  The selection code itself — `buildMatch`,
+`MatchedServerName`, `MatchedALPN`, the ALPN filter of `tlsConfigTemplate` and the whole of `GetConfigForClient` — is
+regenerated statement by statement (`Gen/TlsMatch.lean`); the `gen_*_eq_model` theorems below prove the model's functions
+equal to the regenerated ones, so every theorem about `select` / `matchedServerName` / `buildMatch` is a theorem about
+the regenerated code.
 -/
 namespace MosnVerif.Props.C13
-open MosnVerif.Model.TlsSelect MosnVerif.Gen.TlsPolicy
+open MosnVerif MosnVerif.Model.TlsSelect MosnVerif.Gen.TlsPolicy
+open MosnVerif.Lemmas.TlsMatch (provs NamespacesApart certKeys)
+open MosnVerif.Model.TlsMatchBase (X509 Prov)
+
+/-! ### the model IS the regenerated selection code -/
+
+/-- **gen_buildMatch_eq_model**: the regenerated `buildMatch` (over the context's certificate, the NextProtos the
+regenerated ALPN filter of `tlsConfigTemplate` keeps, and the server_name) stores exactly the model's key set. -/
+theorem gen_buildMatch_eq_model (c : Ctx) :
+    Gen.TlsMatch.buildMatch [some ⟨c.cn, c.sans⟩] (Gen.TlsMatch.alpnFilter c.alpnCfg) c.serverName = buildMatch c :=
+  Lemmas.TlsMatch.gen_buildMatch_eq c
+
+/-- the regenerated `buildMatch` for ANY certificate list (certificates that do not parse are skipped), NextProtos and
+server_name: which strings enter `matches`, lower-cased, never the empty string for CN / SAN / server_name. -/
+theorem gen_buildMatch_keys (certs : List (Option X509)) (protos : List Name) (sn : Name) :
+    Gen.TlsMatch.buildMatch certs protos sn =
+      certs.flatMap certKeys ++ protos.map lower ++ (if sn.length > 0 then [lower sn] else []) :=
+  Lemmas.TlsMatch.gen_buildMatch_spec certs protos sn
+
+/-- the regenerated ALPN filter of `tlsConfigTemplate` is the model's `parseALPN`. -/
+theorem gen_alpnFilter_eq_model (cfg : Name) : Gen.TlsMatch.alpnFilter cfg = parseALPN cfg :=
+  Lemmas.TlsMatch.gen_alpnFilter_eq cfg
+
+/-- **gen_matchedServerName_eq_model**: the regenerated `MatchedServerName` (lower-casing, the trailing-dot loop, the
+exact lookup, the label-by-label wildcard walk) is the model's, for every key set, every string, and however much fuel
+beyond their termination measures the two loops are given. -/
+theorem gen_matchedServerName_eq_model (m : List Name) (sn : Name) (fuel : Nat) :
+    Gen.TlsMatch.matchedServerName m sn fuel = matchedServerName m sn :=
+  Lemmas.TlsMatch.gen_matchedServerName_eq m sn fuel
+
+theorem gen_matchedALPN_eq_model (m : List Name) (protos : List Name) :
+    Gen.TlsMatch.matchedALPN m protos = matchedALPN m protos :=
+  Lemmas.TlsMatch.gen_matchedALPN_eq m protos
+
+/-- **gen_select_eq_model**: the regenerated `GetConfigForClient` (whole function: the provider loop with its `Ready()`
+test, default / server-name / ALPN bookkeeping, the early return, and the tail), run on the providers of the contexts
+`ps` (position, readiness, regenerated key set), is the model's `select`. -/
+theorem gen_select_eq_model (ps : List Ctx) (sni : Name) (protos : List Name) (fuel : Nat) :
+    Gen.TlsMatch.getConfigForClient (provs ps 0) sni protos fuel = select ps sni protos :=
+  Lemmas.TlsMatch.gen_select_eq ps sni protos fuel
 
 /-- **select_precedence**: for EVERY provider list and EVERY ClientHello (SNI, ALPN list), `GetConfigForClient` returns
 the first ready provider whose match set matches the SNI, else the first ready provider whose match set contains a
@@ -24,6 +68,23 @@ theorem select_precedence (ps : List Ctx) (sni : Name) (protos : List Name) :
   unfold select
   rw [walk_eq, pick_eq_ofOpt]
   simp [orElse']
+
+/-- `select_precedence` spelled out over the regenerated functions only: the regenerated `GetConfigForClient` returns the
+first ready context whose regenerated key set (regenerated `buildMatch` over the regenerated ALPN filter) the regenerated
+`MatchedServerName` accepts for the SNI, else the first ready one the regenerated `MatchedALPN` accepts, else the first
+ready context, else the error. -/
+theorem gen_select_precedence (ps : List Ctx) (sni : Name) (protos : List Name) (fuel : Nat) :
+    Gen.TlsMatch.getConfigForClient (provs ps 0) sni protos fuel =
+      ofOpt (orElse'
+        (ps.findIdx? (fun c => c.ready && Gen.TlsMatch.matchedServerName
+          (Gen.TlsMatch.buildMatch [some ⟨c.cn, c.sans⟩] (Gen.TlsMatch.alpnFilter c.alpnCfg) c.serverName) sni fuel))
+        (orElse'
+          (ps.findIdx? (fun c => c.ready && Gen.TlsMatch.matchedALPN
+            (Gen.TlsMatch.buildMatch [some ⟨c.cn, c.sans⟩] (Gen.TlsMatch.alpnFilter c.alpnCfg) c.serverName) protos))
+          (ps.findIdx? (fun c => c.ready)))) := by
+  simp only [gen_select_eq_model, select_precedence, gen_buildMatch_eq_model, gen_matchedServerName_eq_model,
+    gen_matchedALPN_eq_model]
+  rfl
 
 /-- `findIdx?` is "the first": index `i` is returned iff the predicate holds at `i` and at no smaller index (core lemma,
 restated so that `select_precedence` can be read without the library). -/
@@ -74,31 +135,83 @@ theorem matched_alpn (m : List Name) (protos : List Name) :
     matchedALPN m protos = true ↔ ∃ q ∈ protos, lower q ∈ m :=
   matchedALPN_iff m protos
 
-/-- **select_statement_partial**: the statement's rule (names and ALPN are separate: first ready context whose
-certificate names / server_name match the SNI exactly or by wildcard, else first ready whose ALPN list intersects the
-client's, else first ready, else error) is what `GetConfigForClient` computes, for every context list (certificate DNS
-names non-empty) and every ClientHello in which (h1) the SNI is not an ALPN token of a ready context and (h2) no client
-ALPN entry equals a name of a ready context.
-FULL STATEMENT (not provable, see the witnesses below and KNOWN_FINDINGS): the same without h1 and h2 — MOSN keeps names
-and ALPN tokens in ONE set, so an SNI such as `h2`/`sofa` matches a context through its ALPN list and a client ALPN entry
-such as `a.com` matches a context through its certificate name. -/
-theorem select_statement_partial (ps : List Ctx) (sni : Name) (protos : List Name)
-    (hsan : ∀ c ∈ ps, [] ∉ c.sans)
-    (h1 : ∀ c ∈ ps, c.ready = true → normSni sni ∉ c.alpn.map lower)
-    (h2 : ∀ c ∈ ps, c.ready = true → ∀ q ∈ protos, lower q ∉ c.names.map lower) :
-    select ps sni protos = ofOpt (specSelect ps sni protos) := by
-  rw [select_precedence]
+/-- **select_statement**: the FULL statement of the property for the regenerated `GetConfigForClient`: for EVERY ordered
+list of contexts (any certificate names incl. empty and wildcard ones, any alpn / server_name strings, any readiness)
+and EVERY ClientHello, the context that answers is the first ready context whose certificate names or server_name
+match the SNI exactly or by wildcard label, else the first ready context whose ALPN list intersects the client's, else
+the first ready context (else ErrorNoCertConfigure) — `specSelect`, written with separate name and ALPN namespaces —
+under the single hypothesis `NamespacesApart`: "no configured name equals an ALPN token and vice versa" as far as this
+ClientHello can tell (the SNI is not an ALPN token of a ready context, no offered ALPN entry is a name of a ready
+context).  Without it the statement FAILS (MOSN keeps names and ALPN tokens in ONE set): recorded finding, key `xns`,
+machine-checked witnesses `select_statement_exception_*` below. -/
+theorem select_statement (ps : List Ctx) (sni : Name) (protos : List Name) (fuel : Nat)
+    (hns : NamespacesApart ps sni protos) :
+    Gen.TlsMatch.getConfigForClient (provs ps 0) sni protos fuel = ofOpt (specSelect ps sni protos) := by
+  rw [gen_select_eq_model, select_precedence]
   unfold specSelect
   rw [findIdx?_congr ps (fun c => c.ready && c.sniMatch sni) (fun c => c.ready && nameRule c sni),
     findIdx?_congr ps (fun c => c.ready && c.alpnMatch protos) (fun c => c.ready && alpnRule c protos)]
   · intro c hc
     cases hr : c.ready
     · rfl
-    · simp only [Bool.true_and]; exact alpnMatch_eq_alpnRule c protos (h2 c hc hr)
+    · simp only [Bool.true_and]; exact alpnMatch_eq_alpnRule c protos (hns c hc hr).2
   · intro c hc
     cases hr : c.ready
     · rfl
-    · simp only [Bool.true_and]; exact sniMatch_eq_nameRule c sni (hsan c hc) (h1 c hc hr)
+    · simp only [Bool.true_and]; exact sniMatch_eq_nameRule c sni (hns c hc hr).1
+
+/-- the exception, machine-checked (1): an SNI equal to an ALPN token selects the context offering that token although
+no name matches and the client offers no ALPN — the statement selects the first ready context. -/
+theorem select_statement_exception_sni_is_token :
+    ∃ ps sni protos, ¬ NamespacesApart ps sni protos ∧
+      Gen.TlsMatch.getConfigForClient (provs ps 0) sni protos 0 ≠ ofOpt (specSelect ps sni protos) :=
+  ⟨[⟨true, "c.net".toList, [], [], []⟩, ⟨true, "a.com".toList, ["*.a.com".toList], "h2".toList, []⟩], "h2".toList, [],
+    by decide, by decide⟩
+
+/-- the exception, machine-checked (2): a client ALPN entry equal to a certificate name counts as an ALPN intersection. -/
+theorem select_statement_exception_proto_is_name :
+    ∃ ps sni protos, ¬ NamespacesApart ps sni protos ∧
+      Gen.TlsMatch.getConfigForClient (provs ps 0) sni protos 0 ≠ ofOpt (specSelect ps sni protos) :=
+  ⟨[⟨true, "c.net".toList, [], [], []⟩, ⟨true, "a.com".toList, ["*.a.com".toList], "h2".toList, []⟩], "zzz".toList,
+    ["a.com".toList], by decide, by decide⟩
+
+/-- **wildcard_labels** (MOSN's wildcard semantics, over the regenerated walk, for ALL suffixes and ALL host strings):
+a key `*.suffix` matches the host h iff h (lower-cased, trailing dots removed) is `l₁.l₂.….lₖ.suffix` with k ≥ 1
+dot-free labels — ONE OR MORE labels (RFC 6125 allows exactly one; MOSN walks every label boundary). -/
+theorem wildcard_labels (suf h : Name) (fuel : Nat) :
+    Gen.TlsMatch.matchedServerName ['*' :: '.' :: suf] h fuel = true ↔
+      ∃ ls : List Name, ls ≠ [] ∧ (∀ l ∈ ls, '.' ∉ l) ∧ normSni h = joinDot (ls ++ [suf]) := by
+  rw [gen_matchedServerName_eq_model, matchedServerName_iff]
+  simp only [List.mem_singleton, List.cons.injEq, true_and]
+  constructor
+  · rintro (he | ⟨pre, suf', e, hs⟩)
+    · exact ⟨[['*']], by simp, by simp, by rw [he]; rfl⟩
+    · subst hs
+      refine ⟨splitOn '.' pre, splitOn_ne_nil _ _, Lemmas.TlsMatch.splitOn_no_sep '.' pre, ?_⟩
+      rw [Lemmas.TlsMatch.joinDot_append_singleton _ _ (splitOn_ne_nil _ _), joinDot_splitOn, e]
+  · rintro ⟨ls, hne, _, e⟩
+    rw [Lemmas.TlsMatch.joinDot_append_singleton _ _ hne] at e
+    exact Or.inr ⟨joinDot ls, suf, e, rfl⟩
+
+/-- never a partial label, never the bare suffix: if the host is `pre ++ suffix` where `pre` does not end in a dot
+(`pre` empty = the bare suffix; `xa.com` against `*.a.com`), the key `*.suffix` does not match it. -/
+theorem wildcard_never_partial_label (suf pre h : Name) (fuel : Nat) (e : normSni h = pre ++ suf)
+    (hp : ¬ ∃ p, pre = p ++ ['.']) :
+    Gen.TlsMatch.matchedServerName ['*' :: '.' :: suf] h fuel = false := by
+  rw [Bool.eq_false_iff, Ne, gen_matchedServerName_eq_model, matchedServerName_iff]
+  simp only [List.mem_singleton, List.cons.injEq, true_and]
+  rintro (he | ⟨pre', suf', e', hs⟩)
+  · rw [e] at he
+    have : pre ++ suf = ['*', '.'] ++ suf := he
+    exact hp ⟨['*'], List.append_cancel_right this⟩
+  · subst hs
+    rw [e] at e'
+    have : pre ++ suf' = (pre' ++ ['.']) ++ suf' := by simpa using e'
+    exact hp ⟨pre', List.append_cancel_right this⟩
+
+theorem wildcard_never_bare_suffix (suf h : Name) (fuel : Nat) (e : normSni h = suf) :
+    Gen.TlsMatch.matchedServerName ['*' :: '.' :: suf] h fuel = false :=
+  wildcard_never_partial_label suf [] h fuel (by simpa using e) (by rintro ⟨p, hp⟩; simp at hp)
 
 /-- **client_auth_table**: verify_client / require_client_cert ↦ tls.ClientAuthType, all four combinations, with the
 numeric values of crypto/tls. -/
@@ -150,7 +263,7 @@ theorem no_plaintext_without_inspector (peekFailed : Bool) (b : Nat) :
 /-- **spec_holds_on_model**: the executable predicates the driver evaluates on implementation outputs hold of the
 model's outputs, for every input (`auth`, `trust`, `cv`; `trustc` for a ready provider; `insp` for a listener that is
 either TCP with a ready context or in inspector mode — the complement is `passthrough_partial`); for
-`sel`/`hs`/`msn`/`mal` this is `select_statement_partial` with its two hypotheses. -/
+`sel`/`hs`/`msn`/`mal` this is `select_statement` under `NamespacesApart`. -/
 theorem spec_holds_on_model :
     (∀ req ver, getClientAuth req ver = specClientAuth req ver) ∧
     (∀ req ver p, serverAccepts (getClientAuth req ver) p = specServerAccepts req ver p) ∧
@@ -414,21 +527,38 @@ end Trust
 /-! ### non-vacuity and the machine-checked witnesses of the shared-namespace discrepancy -/
 
 
--- the hypotheses of `select_statement_partial` are satisfiable by a non-trivial case (wildcard match on the 2nd rule)
-example : (∀ c ∈ [exN, exB, exA], [] ∉ c.sans) ∧
-    (∀ c ∈ [exN, exB, exA], c.ready = true → normSni "x.y.A.com.".toList ∉ c.alpn.map lower) ∧
-    (∀ c ∈ [exN, exB, exA], c.ready = true → ∀ q ∈ ["h2".toList], lower q ∉ c.names.map lower) := by decide
+-- the hypothesis of `select_statement` is satisfiable by a non-trivial case (wildcard match on the 2nd rule, a context
+-- with an EMPTY SAN in the list)
+def exE : Ctx := ⟨true, [], [[], "e.org".toList], [], []⟩
+example : NamespacesApart [exN, exE, exB, exA] "x.y.A.com.".toList ["h2".toList] := by decide
+example : Gen.TlsMatch.getConfigForClient (provs [exN, exE, exB, exA] 0) "x.y.A.com.".toList ["h2".toList] 0 = .config (some 3) := by decide
 example : select [exN, exB, exA] "x.y.A.com.".toList ["h2".toList] = .config (some 2) := by decide
 example : select [exN, exB, exA] "c.net".toList ["h2".toList] = .config (some 1) := by decide   -- ALPN rule
 example : select [exN, exB, exA] "c.net".toList [] = .config (some 1) := by decide              -- default skips the non-ready
 example : select [exN] "n.io".toList [] = .errNoCert := by decide
--- an SNI-less ClientHello falls to the ALPN rule / default (after the fix of the empty server_name key)
+-- an SNI-less ClientHello falls to the ALPN rule / default (after the fixes of the empty server_name / empty SAN keys)
 example : select [exA, exB] [] ["http/1.1".toList] = .config (some 1) := by decide
--- NEGATION WITNESS 1 (h1 dropped): SNI `h2` selects the context offering ALPN h2 although no name matches and the
+example : select [exE, exA, exB] [] ["http/1.1".toList] = .config (some 2) := by decide
+example : buildMatch exE = ["e.org".toList] := by decide
+-- the regenerated buildMatch: which strings enter `matches` (lower-cased; unsupported ALPN tokens and empty names never)
+example : Gen.TlsMatch.buildMatch [some ⟨"Cn.X".toList, ["A.b".toList, [], "*.C".toList]⟩, none] (Gen.TlsMatch.alpnFilter "H2,bogus,,sofa".toList) "Sn".toList =
+    ["cn.x", "a.b", "*.c", "h2", "sofa", "sn"].map String.toList := by decide
+-- wildcard_labels instances: one OR MORE labels, empty labels count, never the bare suffix, never a partial label
+example : Gen.TlsMatch.matchedServerName ["*.a.com".toList] "x.a.com".toList 0 = true ∧
+    Gen.TlsMatch.matchedServerName ["*.a.com".toList] "y.x.A.COM..".toList 0 = true ∧
+    Gen.TlsMatch.matchedServerName ["*.a.com".toList] ".a.com".toList 0 = true ∧
+    Gen.TlsMatch.matchedServerName ["*.a.com".toList] "*.a.com".toList 0 = true ∧
+    Gen.TlsMatch.matchedServerName ["*.a.com".toList] "a.com".toList 0 = false ∧
+    Gen.TlsMatch.matchedServerName ["*.a.com".toList] "xa.com".toList 0 = false ∧
+    Gen.TlsMatch.matchedServerName ["*.a.com".toList] "x.a.com.b".toList 0 = false := by decide
+example : normSni "y.x.A.COM..".toList = joinDot (["y".toList, "x".toList] ++ ["a.com".toList]) := by decide
+example : normSni "xa.com".toList = "x".toList ++ "a.com".toList ∧ ¬ ∃ p, "x".toList = p ++ ['.'] := by
+  refine ⟨by decide, ?_⟩; rintro ⟨p, hp⟩; cases p <;> simp at hp
+-- NEGATION WITNESS 1 (SNI = ALPN token): SNI `h2` selects the context offering ALPN h2 although no name matches and the
 -- client offers no ALPN: the statement selects the first ready context
 example : select [exB, exA] "h2".toList [] = .config (some 0) ∧ specSelect [⟨true, "c.net".toList, [], [], []⟩, exA] "h2".toList [] = some 0 ∧
     select [⟨true, "c.net".toList, [], [], []⟩, exA] "h2".toList [] = .config (some 1) := by decide
--- NEGATION WITNESS 2 (h2 dropped): a client ALPN entry `a.com` "intersects" the context named a.com
+-- NEGATION WITNESS 2 (client ALPN entry = name): a client ALPN entry `a.com` "intersects" the context named a.com
 example : specSelect [⟨true, "c.net".toList, [], [], []⟩, exA] "zzz".toList ["a.com".toList] = some 0 ∧
     select [⟨true, "c.net".toList, [], [], []⟩, exA] "zzz".toList ["a.com".toList] = .config (some 1) := by decide
 example : ∃ ps sni protos, select ps sni protos ≠ ofOpt (specSelect ps sni protos) :=
